@@ -314,8 +314,10 @@ def r2_relations(ctx):
               "the edited copy becomes the force column",
               "the corrected copy is not assigned to the force column")
     # baseline fit: linear model on [:idp] of the chosen abscissa
-    fits = [c for c in calls_in(f) if call_name(c) == "mod.fit"]
     Rs_ = Resolver(f, keep={"abscissa", "idp"})
+    fits = [c for c in calls_in(f) if isinstance(c.func, ast.Attribute)
+            and c.func.attr == "fit" and Rs_.text(c.func.value) in (
+                "lmfit.models.LinearModel()", "mod")]
     ok = bool(fits) and Rs_.text(fits[0].args[0]) in (
         "force[:idp]", "apret['force'][:idp]") and \
         norm(kwarg(fits[0], "x")) == "abscissa[:idp]"
@@ -426,21 +428,56 @@ def r3_monotone_test(ctx):
     ctx.floor("break test in the window-doubling loop", len(brk), 1)
     t = brk[0].test
     tt = norm(t)
+    # the names used for window, smoothed data and gradient
+    every = [s_ for s_ in ast.walk(lp) if isinstance(s_, ast.Assign)
+             and len(s_.targets) == 1 and isinstance(s_.targets[0],
+                                                     ast.Name)]
+    W = S = G = None
+    for s_ in every:
+        nm = s_.targets[0].id
+        if norm(s_.value) in (f"{nm} * 2 + 1", f"2 * {nm} + 1"):
+            W = nm
+    for s_ in every:
+        v_ = s_.value
+        if W and isinstance(v_, ast.Call) and call_name(v_) == "smooth_axis" \
+                and norm(v_) in (f"smooth_axis(data, window={W})",
+                                 f"smooth_axis(data, {W})"):
+            S = s_.targets[0].id
+    for s_ in every:
+        if S and norm(s_.value) == f"np.gradient({S})":
+            G = s_.targets[0].id
+    g = G or "gradient"
     exact = isinstance(t, ast.Compare) and len(t.ops) == 1 and isinstance(
         t.ops[0], ast.Eq) and {norm(t.left), norm(t.comparators[0])} == {
-            "np.abs(np.sum(gradient))", "np.sum(np.abs(gradient))"}
-    alt = tt in ("np.all(gradient > 0) or np.all(gradient < 0)",
-                 "np.all(gradient >= 0) or np.all(gradient <= 0)")
+            f"np.abs(np.sum({g}))", f"np.sum(np.abs({g}))"}
+    alt = tt in (f"np.all({g} > 0) or np.all({g} < 0)",
+                 f"np.all({g} >= 0) or np.all({g} <= 0)")
     ctx.check(exact or alt, brk[0], f"monotonicity test: {tt[:70]}",
               "the window is accepted on a tolerance-based test instead of "
               "the exact |sum(g)| == sum(|g|): heights are of the order of "
               "1e-6 m, so any absolute tolerance (np.isclose default 1e-8) "
               "accepts non-monotonic data")
     # gradient and smooth recomputed after doubling
-    rec = [norm(s) for s in lp.body if isinstance(s, ast.Assign)]
-    ctx.check("window = window * 2 + 1" in rec and
-              "smooth = smooth_axis(data, window=window)" in rec and
-              "gradient = np.gradient(smooth)" in rec, lp,
+    # (recomputed at the start of every pass, or - with a first
+    # computation in front of the loop - right after the doubling)
+    def pos(pred):
+        for k_, s_ in enumerate(lp.body):
+            if any(pred(x) for x in ast.walk(s_)):
+                return k_
+        return None
+    is_asg = lambda x, nm: isinstance(x, ast.Assign) and len(
+        x.targets) == 1 and norm(x.targets[0]) == nm
+    p_w = pos(lambda x: W is not None and is_asg(x, W))
+    p_s = pos(lambda x: S is not None and is_asg(x, S))
+    p_g = pos(lambda x: G is not None and is_asg(x, G))
+    p_t = [k_ for k_, s_ in enumerate(lp.body) if s_ is brk[0]][0]
+    before = [s_ for s_ in f.body[:f.body.index(lp)]
+              if isinstance(s_, ast.Assign)]
+    primed = any(is_asg(s_, S) for s_ in before) and any(
+        is_asg(s_, G) for s_ in before) if S and G else False
+    fresh = None not in (p_w, p_s, p_g) and p_s < p_g and (
+        (p_g <= p_t and p_w >= p_t) or (primed and p_t <= p_w < p_s))
+    ctx.check(fresh, lp,
               "window doubled and smoothing/gradient recomputed",
               "after rejecting a window the smoothing is not recomputed "
               "with a larger window")
@@ -450,13 +487,15 @@ def r3_monotone_test(ctx):
               "when no window works the function no longer raises")
     lp2 = loops[1]
     brk2 = [n for n in lp2.body if isinstance(n, ast.If) and any(
-        isinstance(s, ast.Break) for s in n.body)]
+        isinstance(s, (ast.Break, ast.Return)) for s in n.body)]
     Rsm = Resolver(f)
-    ok = bool(brk2) and Rsm.text(brk2[0].test).replace(
-        "len(smooth)", "smooth.size") in (
-        "np.unique(smooth).size == smooth.size",
-        "smooth.size == np.unique(smooth).size",
-        "len(np.unique(smooth)) == smooth.size")
+    import re as _re
+    t2_ = norm(brk2[0].test) if brk2 else ""
+    t2_ = _re.sub(r"len\((\w+)\)", r"\1.size", t2_)
+    ok = bool(brk2) and any(_re.fullmatch(pat, t2_) for pat in (
+        r"np\.unique\((\w+)\)\.size == \1\.size",
+        r"(\w+)\.size == np\.unique\(\1\)\.size",
+        r"len\(np\.unique\((\w+)\)\) == \1\.size"))
     ctx.check(ok, lp2, "strictness loop ends only when all values differ",
               "ties are no longer removed before returning (monotone but "
               "not strictly)")
